@@ -28,13 +28,13 @@ Covers(b, t) == b.min <= t /\ t < b.max
 Allowed(blocks, q) == { b \in blocks : b.res <= q.maxres }
 
 (* "overlaps the query range": some instant of mint..maxt lies in [min,max).  Closed form of    *)
-(* \E t \in q.mint..q.maxt : Covers(b, t)   (BlockSetMC checks the two agree on the grid).       *)
+(* \E t \in q.mint..q.maxt : Covers(b, t)   (BlockSetLemmaMC checks the two agree on the grid).       *)
 Overlaps(b, q) == q.mint <= q.maxt /\ b.min < b.max /\ b.min <= q.maxt /\ q.mint < b.max
 
 (* Instants of the range that an allowed block covers and no selected block covers.  The set is *)
 (* a finite union of intervals; a left end of such an interval is the range start, the start of *)
 (* an allowed block or the end of a selected block, so it is enough to look there (the trace    *)
-(* works on millisecond timestamps; BlockSetMC checks this reduction against all grid instants). *)
+(* works on millisecond timestamps; BlockSetLemmaMC checks this reduction against all instants). *)
 UncoveredAt(blocks, selBlocks, q, t) ==
     /\ q.mint <= t /\ t <= q.maxt
     /\ \E b \in Allowed(blocks, q) : Covers(b, t)
